@@ -16,7 +16,7 @@ def parseScalar (j : Json) : Option Scalar :=
   | .null => some .nil
   | .str s => some (.str (textOf s))
   | .num _ => (asNat? j).map Scalar.int
-  | .obj _ => some .undef
+  | .obj _ => some (.undef "")
   | _ => none
 
 def parseVal (j : Json) : Option Val :=
